@@ -67,6 +67,7 @@ Do(R) ==
   \/ R.e = "reopen"  /\ Reopen(R.obs)
   \/ R.e = "crash"   /\ Crash(R.obs)
   \/ R.e = "probe"   /\ CrashProbe(R)
+  \/ R.e = "cprobe"  /\ CorruptProbe(R)
   \/ R.e = "dump"    /\ Dump(R.src, R.obs)
 
 =============================================================================
